@@ -2,7 +2,9 @@
 
 `find` runs (a) function-level checks of the 7z read-back loop, `_safe_join` and the skip rule, (b) the archive-level probes of
 `replay/C09_probe.py` (hostile ZIP / TAR / 7z corpus under a file-system observer, temp dir lifetime under every consumer history,
-skip rules in every format, oversize members).  The obligation that asked for the replay only decides which probe runs first."""
+skip rules in every format, oversize members).  The obligation that asked for the replay only decides which probe runs first.
+Round 5: sibling directories whose names extend the private directory's name (character-wise prefix tests); the two BOUNDED collision scopes
+(`name_collisions_7z`, `name_collisions_7z_known_temp_name` with tempfile's name sequence pinned) run only for their own obligations."""
 import os
 import sys
 import tempfile
